@@ -252,6 +252,29 @@ func cmdReplay(file, dir string, t Tools) {
 			fails = append(fails, mkFail(p, in.OptSet, d, runs))
 		}
 	}
+	var inR struct {
+		Content *string `json:"content"`
+		Patches []patch `json:"patches"`
+	}
+	if len(doc.Input) > 0 && json.Unmarshal(doc.Input, &inR) == nil && inR.Content != nil {
+		if obs := observeR(*inR.Content, inR.Patches, 200); len(obs) > 1 {
+			fails = append(fails, failR(*inR.Content, inR.Patches, obs))
+		}
+	}
+	var inN struct {
+		Style  *int        `json:"style"`
+		OrderA [][2]string `json:"order_a"`
+		OrderB [][2]string `json:"order_b"`
+	}
+	if len(doc.Input) > 0 && json.Unmarshal(doc.Input, &inN) == nil && inN.Style != nil {
+		a, _ := nsRun(*inN.Style, inN.OrderA)
+		b, _ := nsRun(*inN.Style, inN.OrderB)
+		fa, fb := strings.Fields(a), strings.Fields(b)
+		if len(fa) < 2 || len(fb) < 2 || fa[1] != fb[1] {
+			fails = append(fails, vl.OracleFail{Key: "nondeterministic:in-process:namespace.Add", What: "Add of distinct names with distinct ids depends on the order",
+				Input: map[string]interface{}{"style": *inN.Style, "order_a": inN.OrderA, "order_b": inN.OrderB}, Expected: a, Observed: b})
+		}
+	}
 	js, _ := json.Marshal(fails)
 	fmt.Println(string(js))
 }
